@@ -187,7 +187,7 @@ func runLINKNAMES(c *Ctx) {
 			for _, b := range g.Blocks {
 				for _, ins := range b.Instrs {
 					st, ok := ins.(*ssa.Store)
-					if !ok || ir.Strip(st.Val) != name {
+					if !ok || !carriesValue(st.Val, name, 0) {
 						continue
 					}
 					if ia, ok := st.Addr.(*ssa.IndexAddr); ok {
@@ -1251,6 +1251,43 @@ func runROOTDIRTY(c *Ctx) {
 		}
 		return "a value of unrecognised origin (" + pathDesc(ir.Sym(v)) + ")", false
 	}
+	// who may clear the mark: only the function that makes the tree equal to a persisted version again (the driver
+	// of the node store under MakeRoot, with the private helpers split out of it). Anyone else clearing it — a
+	// clone "starting its own session", a cursor, a diff — makes a tree emptied since load answer 'clean'.
+	if len(marks) > 0 {
+		clearers := map[*ssa.Function]bool{}
+		if sh := findFlush(c); sh != nil {
+			for _, f := range regionOf(c, sh.F) {
+				clearers[f] = true
+			}
+		}
+		for _, fn := range P.Funcs {
+			if fn.Pkg == nil || fn.Pkg.Pkg.Path() != ir.MastPath {
+				continue
+			}
+			for _, b := range fn.Blocks {
+				if ir.IsDead(b) {
+					continue
+				}
+				for _, ins := range b.Instrs {
+					_, f2, st2, ok := mastFieldStore(ins)
+					if !ok || !marks[f2] {
+						continue
+					}
+					pos := P.InstrPos(st2)
+					if v, isC := ir.ConstBool(st2.Val); isC && v {
+						continue // setting the mark is judged with the nil root it accompanies, below
+					}
+					if clearers[ir.Outermost(fn)] {
+						c.OK(pos, "mark "+f2+" cleared in "+ir.FuncName(fn), "by the function that persists the tree (it equals a stored version afterwards)", false)
+					} else {
+						c.Violation(fn, pos, "emptied mark cleared outside the persisting function",
+							"Mast."+f2+" is what lets IsDirty answer 'modified' for a tree whose last entry was deleted; it is cleared (or overwritten with a computed value) in a function that does not persist the tree, so that tree — or the copy made here — reports 'clean' with no entries although the version it came from has some")
+					}
+				}
+			}
+		}
+	}
 	reach := c.Facts.Reach(muts...)
 	for _, fn := range P.Funcs {
 		if !reach[fn] {
@@ -1404,4 +1441,21 @@ func init() {
 				c.OK("-", "no size limit on loaded nodes", "scan of the load path", false)
 			}
 		}})
+}
+
+// carriesValue: v is want (through boxing/conversion), or a φ that takes want on the paths that come from where want
+// is computed (`name, err = child.store(…)` in one arm of a switch, the store after the arms have merged).
+func carriesValue(v, want ssa.Value, d int) bool {
+	v = ir.Strip(v)
+	if v == want {
+		return true
+	}
+	if phi, ok := v.(*ssa.Phi); ok && d < 3 {
+		for _, e := range phi.Edges {
+			if carriesValue(e, want, d+1) {
+				return true
+			}
+		}
+	}
+	return false
 }
